@@ -20,6 +20,7 @@ sys.path.insert(0, os.path.dirname(os.path.abspath(__file__)))
 import rs2lean_analyze as ra
 import rs2lean_vm as rv
 import rs2lean_tostr as rt
+import rs2lean_ints as ints
 from rs2lean_analyze import Unsupported, bad, matching, top_level_positions, parse_struct, parse_enum, int_of, find_seq
 from rs2lean_vm import tokenize, lean_id, LITERALS
 from rs2lean_tostr import lean_char, lean_str, unescape
@@ -41,8 +42,11 @@ class Parser(rt.Parser):
         if t.text == '|':
             while not self.at('|'):
                 params.append(self.pattern())
-                if self.at(':'):
-                    bad('closure parameter with a type', t.line)
+                if self.at(':'):                  # the annotation must be a scalar (or a reference to one): rustc has checked it
+                    self.next()
+                    ty = self.type_(['|', ','])
+                    if ty.lstrip('&') not in ('u8', 'char', 'usize', 'bool') or params[-1][0] != 'pbind':
+                        bad('closure parameter with a type (other than a scalar)', t.line)
                 if not self.at('|'):
                     self.expect(',')
             self.next()
@@ -125,12 +129,20 @@ class Parser(rt.Parser):
                 if self.at('mut'):
                     self.next()
                     mut = True
-                if self.peek().kind != 'id' or self.peek(1).text != '=':
-                    bad('`let` with a pattern that is not a plain identifier, or with a type annotation', t.line)
+                if self.peek().kind != 'id' or self.peek(1).text not in ('=', ':'):
+                    bad('`let` with a pattern that is not a plain identifier', t.line)
                 name = self.ident()
-                self.next()
+                ty = None
+                if self.at(':'):
+                    self.next()
+                    ty = self.type_(['=', ';'])
+                    if not (ty in ('usize', 'bool', 'char')):
+                        bad('`let` with a type annotation other than usize / bool / char', t.line)
+                self.expect('=')
                 e = self.expr()
                 self.expect(';')
+                if ty is not None:
+                    e = ('typed', e, ty, t.line)
                 stmts.append(('let', name, mut, e, t.line))
             elif t.kind == 'id' and t.text == 'while':
                 self.next()
@@ -202,6 +214,16 @@ SIGS = {
     'exec': "fn exec < 't , E > ( & self , template : & 't str , mut f : impl FnMut ( Step < 't > ) -> Result < ( ) , E > , ) -> Result < ( ) , E > {",
 }
 RESERVED = {'st', 'fuel', 'isId', 'e_', 'rest_'}
+
+
+def vid(name):
+    """the Lean identifier of a Rust variable: a name that the generated code uses for itself (RESERVED, `t1`, `t2`, …) is
+    renamed apart (`n` -> `n_rs`), so that a local may be called anything"""
+    return lean_id(name + '_rs') if (name in RESERVED or re.match(r't[0-9]+$', name)) else lean_id(name)
+
+
+def clash_rs(name):
+    return name.endswith('_rs') and (name[:-3] in RESERVED or re.match(r't[0-9]+$', name[:-3]) is not None)
 NUM = ('usize', 'int', 'u8')
 
 
@@ -252,8 +274,8 @@ class Translator:
         return 't%d' % self.tmpn
 
     def bind(self, c, name, t, line, mut=False):
-        if name in c.types or name in RESERVED or name in self.names or re.match(r't[0-9]+$', name):
-            bad('`%s` shadows a name that is in scope (shadowing is not in the subset)' % name, line)
+        if name in c.types or clash_rs(name) or name in self.names:
+            bad('`%s` shadows a name that is in scope (shadowing is not in the subset of this translator)' % name, line)
         c2 = c.copy()
         c2.types[name] = 'usize' if t == 'int' else t
         if mut:
@@ -266,7 +288,7 @@ class Translator:
         if k == 'pwild':
             return '_', []
         if k == 'pbind':
-            return lean_id(p[1]), [(p[1], ty)]
+            return vid(p[1]), [(p[1], ty)]
         if k == 'pnone' and isinstance(ty, tuple) and ty[0] == 'opt':
             return 'none', []
         if k == 'psome' and isinstance(ty, tuple) and ty[0] == 'opt':
@@ -311,7 +333,7 @@ class Translator:
             n = e[1][0]
             if c.types[n] in ('Callback', 'Closure1'):
                 bad('`%s` used as a value' % n, line)
-            return ('self' if n == 'self' else lean_id(n)), c.types[n]
+            return ('self' if n == 'self' else vid(n)), c.types[n]
         if k == 'field':
             s, t = self.vex(e[1], c)
             if t == 'Expander':
@@ -330,7 +352,28 @@ class Translator:
             s, t = self.vex(e[1], c)
             if e[2] == 'u8' and t == 'char':
                 return '(%s.toNat %% 256)' % s, 'u8'
+            if e[2] == 'usize' and t in ('u8', 'usize'):
+                return s, 'usize'
+            if e[2] == 'u8' and t == 'usize':
+                return '(%s %% 256)' % s, 'u8'
             bad('cast of a value of type %s to `%s`' % (t, e[2]), line)
+        if k == 'typed':                     # `let x: T = e`
+            s, t = self.vex(e[1], c)
+            if not (t == e[2] or (t == 'int' and e[2] == 'usize')):
+                bad('`let _: %s` of a value of type %s' % (e[2], t), line)
+            return s, e[2]
+        if k == 'matches':
+            _, scrut, pats, _ = e
+            s, t = self.vex(scrut, c)
+            tests = []
+            for q in pats:
+                if q[0] == 'pint' and t in NUM:
+                    tests.append('%s == %d' % (s, q[1]))
+                elif q[0] == 'pchar' and t == 'char':
+                    tests.append('%s == %s' % (s, lean_char(q[1])))
+                else:
+                    bad('`matches!`: pattern of form %s on a value of type %s' % (q[0], t), line)
+            return '(%s)' % ' || '.join(tests), 'bool'
         if k == 'bin':
             _, op, a, b, _ = e
             (l, tl), (r, tr) = self.vex(a, c), self.vex(b, c)
@@ -405,7 +448,7 @@ class Translator:
             bad('closure that does not take exactly one plain parameter', line)
         c2 = self.bind(c, params[0][1], argty, line)
         s, t = self.vex(body, c2)
-        return lean_id(params[0][1]), s, t
+        return vid(params[0][1]), s, t
 
     def vex_mcall(self, e, c):
         _, recv, m, args, line = e
@@ -434,6 +477,12 @@ class Translator:
             return s, 'str'
         if t == 'str' and m == 'len' and not args:
             return '(strBytes %s).length' % s, 'usize'
+        if t in ('str', 'String') and m == 'is_empty' and not args:
+            return '(List.isEmpty %s)' % s, 'bool'
+        if t == 'usize' and m in ('min', 'max', 'saturating_sub', 'abs_diff') and len(at) == 1 and at[0] in NUM:
+            return ints.method(m, s, av[0][0], 'usize'), 'usize'
+        if t == 'char' and m == 'is_ascii_digit' and not args:
+            return '(decide (48 ≤ %s.toNat ∧ %s.toNat ≤ 57))' % (s, s), 'bool'
         if t == 'char' and m == 'len_utf8' and not args:
             return '(strBytes [%s]).length' % s, 'usize'
         if t == 'str' and m == 'contains' and at == ['char']:
@@ -540,7 +589,7 @@ class Translator:
             v, t = self.vex(e[2][0], c)
             if t not in NUM:
                 bad('argument of `%s` has type %s' % (e[1][0], t), line)
-            return '(%s %s)' % (lean_id(e[1][0]), v), 'Result'
+            return '(%s %s)' % (vid(e[1][0]), v), 'Result'
         bad('value of a callback: expected `Ok(..)`, `Err(..)`, `write!(..)`, a call of a local closure, or `if` / `match` of these', line)
 
     def flat(self, e):
@@ -564,9 +613,9 @@ class Translator:
         if len(params) != 1 or params[0][0] != 'pbind':
             bad('the callback must take exactly one plain parameter', line)
         c2 = self.bind(c, params[0][1], 'Step', line)
-        c2.state = lean_id(statevar) if statevar else '()'
+        c2.state = vid(statevar) if statevar else '()'
         s, t = self.cex(body, c2)
-        return '(fun %s %s => %s)' % (lean_id(params[0][1]), lean_id(statevar) if statevar else '_', s)
+        return '(fun %s %s => %s)' % (vid(params[0][1]), vid(statevar) if statevar else '_', s)
 
     # ---- statements, continuation-passing; k(c, ind, tail)
     def block(self, stmts, tail, c, ind, k):
@@ -588,7 +637,7 @@ class Translator:
                 c2.state = '()'
                 body, _ = self.cex(e[2], c2)
                 c3 = self.bind(c, name, 'Closure1', line)
-                return [ind + 'let %s : Nat → Except CheckErr Unit := fun %s => %s' % (lean_id(name), lean_id(e[1][0][1]), body)] \
+                return [ind + 'let %s : Nat → Except CheckErr Unit := fun %s => %s' % (vid(name), vid(e[1][0][1]), body)] \
                     + cont(c3, ind)
             if e[0] in ('if', 'iflet') and not self.pure(e, c):
                 def kv(c_inner, i2, tl):
@@ -597,11 +646,11 @@ class Translator:
                     v, t = self.vex(tl, c_inner)
                     c3 = self.bind(c, name, t, line, mut)
                     c3.state = c_inner.state
-                    return [i2 + 'let %s : %s := %s' % (lean_id(name), lt(c3.types[name]), v)] + cont(c3, i2)
+                    return [i2 + 'let %s : %s := %s' % (vid(name), lt(c3.types[name]), v)] + cont(c3, i2)
                 return self.cps(e, c, ind, kv)
             v, t = self.vex(e, c)
             c2 = self.bind(c, name, t, line, mut)
-            return [ind + 'let %s : %s := %s' % (lean_id(name), lt(c2.types[name]), v)] + cont(c2, ind)
+            return [ind + 'let %s : %s := %s' % (vid(name), lt(c2.types[name]), v)] + cont(c2, ind)
         if kind == 'assign':
             _, target, op, e, _ = s
             if target[0] != 'path' or len(target[1]) != 1 or target[1][0] not in c.mutable:
@@ -610,14 +659,14 @@ class Translator:
             v, t = self.vex(e, c)
             if not same(t, c.types[n]):
                 bad('assignment of a value of type %s to `%s` of type %s' % (t, n, c.types[n]), line)
-            return [ind + 'let %s : %s := %s' % (lean_id(n), lt(c.types[n]), v)] + cont(c, ind)
+            return [ind + 'let %s : %s := %s' % (vid(n), lt(c.types[n]), v)] + cont(c, ind)
         if kind == 'expr':
             e = s[1]
             if e[0] == 'unit':
                 return cont(c, ind)
             if e[0] == 'try' and e[1][0] == 'call' and len(e[1][1]) == 1 and c.types.get(e[1][1][0]) == 'Callback' and len(e[1][2]) == 1:
                 step = self.step_value(e[1][2][0], c)
-                return [ind + 'match %s %s st with' % (lean_id(e[1][1][0]), step), ind + '| .error e_ => .error e_', ind + '| .ok st =>'] \
+                return [ind + 'match %s %s st with' % (vid(e[1][1][0]), step), ind + '| .error e_ => .error e_', ind + '| .ok st =>'] \
                     + cont(c, ind + '  ')
             if e[0] in ('if', 'iflet'):
                 return self.cps(e, c, ind, lambda c_inner, i2, tl: self.no_value(tl, c, i2, cont))
@@ -626,7 +675,7 @@ class Translator:
                 v, t = self.vex(e[3][0], c)
                 if t != 'char':
                     bad('`push` of a value of type %s' % (t,), line)
-                n = lean_id(e[1][1][0])
+                n = vid(e[1][1][0])
                 return [ind + 'let %s : List Char := (%s ++ [%s])' % (n, n, v)] + cont(c, ind)
             if e[0] == 'mcall' and e[2] == 'expect' and c.kind == 'expansion':
                 inner = e[1]
@@ -713,22 +762,22 @@ class Translator:
         self.names.add('loopExec')
         lines = ['def loopExec {σ ε : Type} (isId : Char → Bool) (self : Expander) (f : Step → σ → Except ε σ) : '
                  'Nat → List Char → σ → Except ε σ',
-                 '  | 0, %s, st => .ok st' % lean_id(it),
-                 '  | fuel + 1, %s, st =>' % lean_id(it),
-                 '    match %s with' % lean_id(it),
+                 '  | 0, %s, st => .ok st' % vid(it),
+                 '  | fuel + 1, %s, st =>' % vid(it),
+                 '    match %s with' % vid(it),
                  '    | [] => .ok st',
-                 '    | %s :: %s =>' % (lean_id(var), lean_id(it))]
+                 '    | %s :: %s =>' % (vid(var), vid(it))]
 
         def end(c2, i2, tl):
             if tl is not None:
                 bad('`while` body with a value', line)
-            return [i2 + 'loopExec isId self f fuel %s st' % lean_id(it)]
+            return [i2 + 'loopExec isId self f fuel %s st' % vid(it)]
         lines += self.block(body, None, cl, '      ', end)
         self.defs.append(('the `while let Some(c) = iter.next()` loop of `exec`, with fuel: what is left of the template, the state '
                           'of the callback', lines))
         c2 = c.copy()
         del c2.types[it]                      # the iterator is consumed by the loop
-        return [ind + 'match loopExec isId self f (template.length + 1) %s st with' % lean_id(it), ind + '| .error e_ => .error e_',
+        return [ind + 'match loopExec isId self f (template.length + 1) %s st with' % vid(it), ind + '| .error e_ => .error e_',
                 ind + '| .ok st =>'] + cont(c2, ind + '  ')
 
     # ---- the functions
@@ -764,7 +813,7 @@ class Translator:
         if c.kind == 'check':
             return [ind + self.exec_call(tl, c, None, '()')]
         if c.kind == 'write':
-            return [ind + self.exec_call(tl, c, c.dst, lean_id(c.dst))]
+            return [ind + self.exec_call(tl, c, c.dst, vid(c.dst))]
         if c.kind == 'cow':
             if tl is not None and tl[0] in ('if', 'iflet'):
                 return self.cps(tl, c, ind, self.finish)
@@ -908,8 +957,8 @@ def main(argv):
     except Unsupported as e:
         where = '%s:%s: ' % (src, e.line) if e.line else '%s: ' % src
         failure = 'rs2lean_expand.py: NOT TRANSLATED - %s%s' % (where, e.msg)
-    except (OSError, IndexError, StopIteration, KeyError, ValueError) as e:
-        failure = 'rs2lean_expand.py: NOT TRANSLATED - %s: %r' % (src, e)
+    except Exception as e:                  # whatever goes wrong inside the translator is a refusal: never a stale file
+        failure = 'rs2lean_expand.py: NOT TRANSLATED - %s: %s: %r' % (src, type(e).__name__, e)
     if failure is not None:
         print(failure)
         if not stub_on_failure or out == '-':
